@@ -45,7 +45,7 @@ def run(ctx):
     ctx.assumptions += [
         "IEEE-754 binary64 arithmetic: sums/differences whose exact result is an integer multiple of 2^-48 of magnitude < 2^49 * 2^-48 are computed exactly (theorem doubles_exact shows every operation of the generator is of this kind, for every rounding function that is exact on that range)",
         "int_fast32_t / uint_fast32_t are the 64 bit types of this platform; seed & 0x7FFFFFFF is the non-negative remainder mod 2^31",
-        "streams_differ rests on the textbook fact that subtract-with-borrow is a linear congruential generator modulo m = b^12 - b^5 + 1 (proved here) - see the theorem list for what is proved about merging of states",
+        "bulk draws (skip lines) are compared through a 64 bit polynomial hash of the bit patterns plus minimum and maximum; single draws (next lines) bit for bit",
         "snapshot reproducibility of whole runs is not part of this check",
     ]
     ok = ctx.obligations("CMacVerif.Props.C13", ["drv_c13"])
@@ -56,7 +56,7 @@ def run(ctx):
     outside = [-1, M31, M31 + 5, -rng.randrange(1, 2 ** 40), rng.randrange(M31, 2 ** 62)]
     seeds = fixed + rnd + outside
     ndraws = ctx.budget(20000, 40000)
-    total_bulk = ctx.budget(0, 10 ** 7)
+    total_bulk = ctx.budget(3 * 10 ** 5, 10 ** 7)
     ops = vlib.corpus_ops("C13")
     hist_of = []
     for n, s in enumerate(seeds):
@@ -144,6 +144,6 @@ def replay(ctx, path):
 
 MANIFEST = dict(
     category="proof",
-    text="Lean theorems about an integer model (units of 2^-48) of RandomGenerator.hpp, for every seed, every stream position and every save/restore point: the unrolled refill is 397 steps of the textbook subtract-with-borrow recurrence and the delivered stream is RANLUX with luxury 397 (stream_is_spec); every state entry stays in [0,2^48) and the carry in {0,1}, so every output is in [0,1) (exactly 0 cannot be excluded: shown reachable from a well-formed state, so -log(u) may be +inf but never <= 0); all double operations are exact (doubles_exact, for every rounding that is exact below 2^49); seed 0 = seed 1; seeding injective on [1,2^31) (first 31 generated bits are the complemented seed bits); restore(dump s) = s and the stream continues identically; the recurrence is a linear congruential generator mod b^12-b^5+1 and is NOT injective on raw states (counterexample proved), injective once the old carry is known. Model tied to the code by bit-exact differential runs (draws, states, restart round trips through the real RestartWriter/RestartReader) plus the property oracle on the implementation.",
-    note="Trusted: Lean kernel + 3 standard axioms; hand model of RandomGenerator.hpp; IEEE exactness of integer-valued double sums below 2^53; 64-bit int_fast32_t. Not a theorem: byte-identical snapshots of two real single-thread runs (depends on everything outside the generator; run separately as an experiment).",
-    technique="Lean 4 proof (invariants + induction over the step count, linear-congruential representation) + exact differential correspondence")
+    text="Lean theorems about an integer model (units of 2^-48) of RandomGenerator.hpp, for every seed, every stream position and every save/restore point: the unrolled refill (three loops, 11-fold unrolled block) is 397 single steps of the textbook subtract-with-borrow recurrence (unrolled_refines_single) and the delivered stream is RANLUX with luxury 397 of the seed words (stream_is_spec); every reachable state has entries in [0,2^48) and carry in {0,1}, so every output lies in [0,1) (state_bounded, next_lt_one); all double operations are exact for every rounding that is exact below 2^49 (doubles_exact); seed 0 = seed 1; seeding injective on [1,2^31) through the first 31 generated bits (seed_injective); restore(dump s) = s and the stream continues identically; different effective seeds give streams that differ within the first 24 draws (streams_differ, via the linear-congruential form of the recurrence modulo b^12-b^5+1, b^397 not congruent to +-1, and the shift-register structure of the seed words). Honest negatives, also proved: the single step is NOT injective on raw states (injective once the incoming carry is known), and exactly 0 is not excluded by the invariant (an all-zero state returns 0 forever), so -log(u) can be +inf in principle but never <= 0. Model tied to the code by bit-exact differential runs (draws, states, restart round trips through the real RestartWriter/RestartReader) plus the property oracle on the implementation.",
+    note="Trusted: Lean kernel + 3 standard axioms; hand model of RandomGenerator.hpp; IEEE exactness of integer-valued double sums below 2^53; 64-bit int_fast32_t/uint_fast32_t. Not a theorem: byte-identical snapshots of two real single-thread runs (depends on everything outside the generator; run separately as a replayable experiment). Not decided: whether a seeded stream ever returns exactly 0.",
+    technique="Lean 4 proof (state invariants, induction over the step count, linear-congruential representation of subtract-with-borrow) + exact differential correspondence")
